@@ -32,7 +32,7 @@ package backup
 //@ iface hash.Hash.Sum
 //@   assumed
 //@   params h, b
-//@   ensures len(b) == 0 ==> bytesOf(result) == md5b(seqBytes(h.sdata, 0, h.slen))
+//@   ensures len(b) == 0 ==> bytesOf(result) == md5b(seqBytes(h.sdata, 0, h.slen)) && len(result) == 16 && fresh(result)      // the only hash in use is MD5 (16 bytes)
 //@   modifies nothing
 //@ func hex.EncodeToString
 //@   assumed
